@@ -29,6 +29,11 @@ pub fn parse_case(case: &J) -> Result<(Vec<u8>, Vec<u32>), String> {
 
 /// Execute one delivery; Some((class, detail)) on a violation.
 fn run_case(bytes: &[u8], tape: &mut Tape, obs: &mut Obs) -> Option<(String, String)> {
+    // received in place in the worker's reusable receive buffer, over the previous delivery
+    crate::arena::deliver_in_place(bytes, |slice| run_case_here(slice, tape, obs))
+}
+
+fn run_case_here(bytes: &[u8], tape: &mut Tape, obs: &mut Obs) -> Option<(String, String)> {
     match receiver::deliver(bytes, tape, obs) {
         Err((p, op)) => Some((format!("Panic@{op}"), format!("panicked at {}: {}", p.short_loc(), p.msg))),
         Ok(()) => obs.fail.as_ref().map(|f| (f.class(), f.detail.clone())),
@@ -79,7 +84,7 @@ fn delivery(dseed: u64, idx: u64, ctx: &mut Ctx<'_>, out: &mut Vec<Violation>, t
     if let Some((class, detail)) = verdict {
         let used = tape.rec.len().min(TAPE_LEN);
         let tape_used: Vec<u32> = tape_fixed_prefix(&tape, used);
-        out.push(Violation { class, detail, episode: idx, case: case_json(d, &tape_used), provenance: prov() });
+        out.push(Violation { class, detail, episode: idx, case: case_json(d, &tape_used).set("previous", hex(&crate::arena::previous())), provenance: prov() });
     }
 }
 
@@ -172,6 +177,14 @@ impl Check for C01 {
 
     fn replay(&self, case: &J, log: Option<&mut Vec<String>>) -> Result<Option<(String, String)>, String> {
         let (bytes, tape) = parse_case(case)?;
+        // a fixed call history, in this process as in a fresh one: a neutral delivery, then what
+        // the receive buffer held before, then the delivery itself
+        let _ = run_case(&[0x80, 203, 0, 0], &mut Tape::canonical(), &mut Obs::new(false));
+        if let Ok(prev) = case.str_of("previous").and_then(|h| unhex(h)) {
+            if !prev.is_empty() {
+                let _ = run_case(&prev, &mut Tape::canonical(), &mut Obs::new(false));
+            }
+        }
         let mut t = Tape::replaying(tape);
         let mut obs = Obs::new(log.is_some());
         let r = run_case(&bytes, &mut t, &mut obs);
@@ -183,15 +196,21 @@ impl Check for C01 {
 
     fn shrink(&self, case: &J) -> Vec<J> {
         let Ok((bytes, tape)) = parse_case(case) else { return vec![] };
+        let prev = case.str_of("previous").unwrap_or("").to_string();
+        let mk = |b: &[u8], t: &[u32]| if prev.is_empty() { case_json(b, t) } else { case_json(b, t).set("previous", prev.as_str()) };
         let mut out = Vec::new();
+        // most violations do not need the previous content of the buffer: try without it first
+        if !prev.is_empty() {
+            out.push(case_json(&bytes, &tape));
+        }
         for t in shrink_tape(&tape).into_iter().take(3) {
-            out.push(case_json(&bytes, &t));
+            out.push(mk(&bytes, &t));
         }
         for b in shrink_bytes(&bytes) {
-            out.push(case_json(&b, &tape));
+            out.push(mk(&b, &tape));
         }
         for t in shrink_tape(&tape).into_iter().skip(3) {
-            out.push(case_json(&bytes, &t));
+            out.push(mk(&bytes, &t));
         }
         out
     }
